@@ -93,6 +93,10 @@ def extra_kinds():
         "proppatch_no_body": ("PROPPATCH", "/u/cal/", None, {}, L, 207),
         "proppatch_missing": ("PROPPATCH", "/u/nope/", scenarios.PROPPATCH, {}, L, 404),
         "post": ("POST", "/u/cal/", "x", {}, L, 405),
+        # first request of a user when the configuration asks for predefined collections: they are created with the home
+        "first_login_predefined": ("PROPFIND", "/w/", None, {"HTTP_DEPTH": "1", "_conf": {"storage": {"predefined_collections":
+                                   '{"personal": {"tag": "VCALENDAR", "D:displayname": "Personal"}, "contacts": {"tag": "VADDRESSBOOK"}}'}}},
+                                   "w:pw", 207),
         "anonymous_get": ("GET", "/u/cal/a.ics", None, {}, None, 200),
     }
     return k
@@ -230,6 +234,9 @@ def run_kind(ctx, rec, name, kind, conf_name, conf, hooklog):
     env = dict(env)
     wipe = env.pop("_wipe_cache", False)
     injected_writer = bool(env.get("_writer_after_unlock"))
+    conf = dict(conf)
+    for sect, vals in (env.pop("_conf", None) or {}).items():
+        conf[sect] = dict(conf.get(sect, {}), **vals)
     with App(dict(conf, rights=permissive_rights(), auth={"type": "none"})) as app:
         scenarios.build_store(app, 2)
         if wipe:
